@@ -33,6 +33,94 @@ type Case struct {
 	Data    string `json:"data"`
 	Vector  []int  `json:"vector"`
 	Reads   string `json:"reads,omitempty"` // decoded, informational
+	// size family (Data is empty then)
+	Shape string `json:"shape,omitempty"`
+	Len   int    `json:"len,omitempty"`
+	Chunk int    `json:"chunk,omitempty"`
+	EOFWD bool   `json:"eof_with_data,omitempty"`
+}
+
+// ---- size family: everything above has streams of at most 8 bytes and buffers
+// of at most 7; thresholds inside the scanners (the production buffer of
+// 128 KiB, a regrow, a maximum line length) are only reachable with a size
+// dimension. One parameter L, four stream shapes, a few buffer sizes and
+// chunking policies; no explorer choices.
+
+func sizeStream(shape string, l int) []byte {
+	switch shape {
+	case "long-line-then-short": // a*L LF b LF
+		return append(append(bytes.Repeat([]byte{'a'}, l), '\n'), 'b', '\n')
+	case "crlf-at-L-then-unterminated": // a*(L-1) CR LF c*L
+		if l == 0 {
+			return []byte("\r\n")
+		}
+		return append(append(bytes.Repeat([]byte{'a'}, l-1), '\r', '\n'), bytes.Repeat([]byte{'c'}, l)...)
+	case "many-short-lines": // (ab LF)*L
+		return bytes.Repeat([]byte("ab\n"), l)
+	case "growing-lines": // lines of length 0,1,2,.. up to a total of about L bytes
+		var b []byte
+		for k := 0; len(b) < l; k++ {
+			b = append(append(b, bytes.Repeat([]byte{'x'}, k)...), '\n')
+		}
+		return b
+	}
+	panic("shape " + shape)
+}
+
+var sizeShapes = []string{"long-line-then-short", "crlf-at-L-then-unterminated", "many-short-lines", "growing-lines"}
+
+func sizeLens(quick bool) []int {
+	var out []int
+	for l := 0; l <= 70; l++ {
+		out = append(out, l)
+	}
+	maxK := 18
+	if quick {
+		maxK = 17
+	}
+	for k := 7; k <= maxK; k++ {
+		out = append(out, 1<<k-1, 1<<k, 1<<k+1)
+	}
+	return out
+}
+
+func sizeFamily(w *runner.W, caseNo *int64) {
+	bufs := []int{16, 4096, 128 * 1024}
+	chunks := []int{1 << 30, 4096, 7, 1}
+	for _, shape := range sizeShapes {
+		for _, l := range sizeLens(w.Quick()) {
+			*caseNo++
+			if !w.Owns(*caseNo) {
+				continue
+			}
+			if w.Expired() {
+				return
+			}
+			data := sizeStream(shape, l)
+			for _, sc := range []string{"immediate", "buffered"} {
+				for _, buf := range bufs {
+					for _, ch := range chunks {
+						if ch == 1 && len(data) > 5000 && (w.Quick() || buf != 4096) {
+							continue // one-byte reads of the long streams: thorough, one buffer size
+						}
+						for _, ewd := range []bool{false, true} {
+							c := Case{Scanner: sc, Buf: buf, Shape: shape, Len: l, Chunk: ch, EOFWD: ewd}
+							w.SetCase(func() any { return c })
+							res := runWith(&chunkReader{data: data, fixed: ch, eofWithData: ewd}, sc, buf, data)
+							w.Eval(res.lines >= 1)
+							w.Add("size_family_runs", 1)
+							w.Add("transitions", int64(res.nData))
+							if res.sig != "" {
+								w.Violation(res.sig, res.detail, c)
+							} else {
+								w.Outcome(res.outcome)
+							}
+						}
+					}
+				}
+			}
+		}
+	}
 }
 
 // chunkReader answers every Read by an explorer choice.
@@ -46,9 +134,38 @@ type chunkReader struct {
 	log    []string
 	nData  int // reads that returned data
 	after  int // reads after an error was returned
+	// size family: a fixed chunking policy instead of explorer choices
+	fixed       int  // > 0: every read returns min(fixed, len(p), rest) bytes
+	eofWithData bool // the last data arrives together with io.EOF
+	reads       int
 }
 
 func (r *chunkReader) Read(p []byte) (int, error) {
+	if r.fixed > 0 {
+		r.reads++
+		rem := len(r.data) - r.pos
+		if rem == 0 {
+			r.err = io.EOF
+			return 0, io.EOF
+		}
+		n := r.fixed
+		if n > len(p) {
+			n = len(p)
+		}
+		if n > rem {
+			n = rem
+		}
+		copy(p, r.data[r.pos:r.pos+n])
+		r.pos += n
+		if n > 0 {
+			r.nData++
+		}
+		if r.pos == len(r.data) && r.eofWithData {
+			r.err = io.EOF
+			return n, io.EOF
+		}
+		return n, nil
+	}
 	if r.err == io.EOF {
 		r.after++
 		return 0, r.err
@@ -159,7 +276,10 @@ type result struct {
 }
 
 func runOne(ex *mc.Explorer, sc string, buf int, data []byte) (res result) {
-	r := &chunkReader{ex: ex, data: data}
+	return runWith(&chunkReader{ex: ex, data: data}, sc, buf, data)
+}
+
+func runWith(r *chunkReader, sc string, buf int, data []byte) (res result) {
 	var s scanner
 	if sc == "immediate" {
 		s = readahead.NewImmediate(r, buf)
@@ -198,8 +318,16 @@ func runOne(ex *mc.Explorer, sc string, buf int, data []byte) (res result) {
 	res.reads = r.log
 	res.nData = r.nData
 	res.lines = len(want)
-	res.outcome = fmt.Sprintf("%q|%d", want, errCalls)
+	if r.fixed > 0 {
+		res.outcome = fmt.Sprintf("size|%d|%d|%d", len(data), len(want), errCalls)
+	} else {
+		res.outcome = fmt.Sprintf("%q|%d", want, errCalls)
+	}
 	bad := func(class, msg string) result {
+		if r.fixed > 0 {
+			return result{sig: "C04/" + sc + "/" + class + "/size-family", reads: r.log, nData: r.nData,
+				detail: fmt.Sprintf("%s\nscanner=%s buf=%d stream of %d bytes (see the case) read in chunks of %d, eof-with-data=%v\n%d lines wanted, %d returned\nonError calls=%d", msg, sc, buf, len(data), r.fixed, r.eofWithData, len(want), len(got), errCalls)}
+		}
 		return result{sig: "C04/" + sc + "/" + class, reads: r.log, nData: r.nData,
 			detail: fmt.Sprintf("%s\nscanner=%s buf=%d stream=%q reads=%v\nwant lines %q\ngot at return %q\ngot after scan %q\nonError calls=%d", msg, sc, buf, delivered, r.log, want, snap, got, errCalls)}
 	}
@@ -294,12 +422,12 @@ func worker(w *runner.W) {
 						ex.EndExecution()
 						w.Eval(res.nData >= 2 && res.lines >= 1)
 						if res.sig != "" {
-							w.Violation(res.sig, res.detail, Case{sc, buf, string(data), ex.Vector(), fmt.Sprint(res.reads)})
+							w.Violation(res.sig, res.detail, Case{Scanner: sc, Buf: buf, Data: string(data), Vector: ex.Vector(), Reads: fmt.Sprint(res.reads)})
 						} else {
 							w.Outcome(res.outcome)
 						}
 						if w.WantSample() && res.nData >= 3 && res.lines >= 2 {
-							w.Sample(Case{sc, buf, string(data), ex.Vector(), fmt.Sprint(res.reads)})
+							w.Sample(Case{Scanner: sc, Buf: buf, Data: string(data), Vector: ex.Vector(), Reads: fmt.Sprint(res.reads)})
 						}
 					}
 					w.Add("choice_points", ex.ChoicePoints)
@@ -312,12 +440,21 @@ func worker(w *runner.W) {
 		})
 		w.Max("deviation_bound_completed", int64(ps.bound))
 	}
+	sizeFamily(w, &caseNo)
 }
 
 func replay(w *runner.W, raw json.RawMessage) {
 	var c Case
 	if err := json.Unmarshal(raw, &c); err != nil {
 		panic(err)
+	}
+	if c.Shape != "" {
+		data := sizeStream(c.Shape, c.Len)
+		res := runWith(&chunkReader{data: data, fixed: c.Chunk, eofWithData: c.EOFWD}, c.Scanner, c.Buf, data)
+		if res.sig != "" {
+			w.Violation(res.sig, res.detail, c)
+		}
+		return
 	}
 	ex := mc.NewReplay(c.Vector)
 	ex.Next()
@@ -333,7 +470,7 @@ func main() {
 		Properties: []string{"C04"},
 		Level:      "model_checking",
 		Rule: func(prop, tier string) string {
-			return "every byte string over {a,CR,LF} up to length 6 (quick) / 8 (thorough) x scanner {immediate, buffered} x buffer size 1..6/7 (buffered from 2) x every answer sequence of the underlying reader: all chunk sizes and data+EOF (free choices), up to 2 deviations (thorough: also 3 deviations for streams up to length 6) among 0-byte stalls and an injected non-EOF error (a plain error or io.ErrUnexpectedEOF) with 0..k bytes at any read, after which the reader would go on delivering the rest of the stream if asked; executed on the real scanners, lines retained and compared after the scan. non-trivial = at least 2 data-carrying reads and at least 1 line; every execution is a distinct (stream, buffer, answer sequence) triple"
+			return "every byte string over {a,CR,LF} up to length 6 (quick) / 8 (thorough) x scanner {immediate, buffered} x buffer size 1..6/7 (buffered from 2) x every answer sequence of the underlying reader: all chunk sizes and data+EOF (free choices), up to 2 deviations (thorough: also 3 deviations for streams up to length 6) among 0-byte stalls and an injected non-EOF error (a plain error or io.ErrUnexpectedEOF) with 0..k bytes at any read, after which the reader would go on delivering the rest of the stream if asked; executed on the real scanners, lines retained and compared after the scan; plus a size family without explorer choices: 4 stream shapes (a line of L bytes then a short one; CR LF ending exactly at L then an unterminated rest of L bytes; L lines of 2 bytes; lines of growing length up to L bytes in total) for L = 0..70 and 2^k-1, 2^k, 2^k+1 (k = 7..17 quick / 18 thorough) x buffer sizes {16, 4096, 131072 = the production size} x reads of {everything asked for, 4096, 7, 1} bytes x last data with or without io.EOF. non-trivial = at least 2 data-carrying reads and at least 1 line; every execution is a distinct (stream, buffer, answer sequence) triple"
 		},
 		Assumptions: func(string) []string {
 			return []string{"the reader obeys io.Reader (n <= len(p)); after an error it keeps returning that error", "byte values outside {a,CR,LF} behave like 'a' (the scanners only compare against LF and CR)"}
